@@ -267,7 +267,8 @@ def _rules_file(r, suffix, script):
         for nm in r.sample(sorted(RULE_VALUES), r.randint(1, 4)):
             attrs.append((nm, r.choice(RULE_VALUES[nm])))
         if r.random() < 0.2:
-            attrs.append(("check-lua", r.choice([script, "missing.lua", ""])))
+            # (also scripts that recurse through C callbacks until Lua stops them: a script error, never a crash of the process)
+            attrs.append(("check-lua", r.choice([script, "missing.lua", "", lua_script("fail/cstack.lua"), lua_script("fail/cstack.lua")])))
         names = [k for k, _ in attrs]
         numeric = False
         if "keep-sorted-format" in names or r.random() < 0.15:
